@@ -16,6 +16,7 @@ import tempfile
 import numpy as np
 
 from ..core import fingerprint
+from ..gen import c07_sequences as Q
 from ..gen import c07_systems as S
 from ..gen import cells
 from ..oracle import c07_formats as F
@@ -29,7 +30,14 @@ RULE = ('classes are enumerated round-robin by case index: data files = 21 atom 
         'on/off, 3 output modes; dump files = 8 unit styles x 7 column variants (default, x, xs, xu, xsu, mixed '
         'standard, all position variants) x carried ids; POSCAR = 6 coordinate-mode spellings x 3 scale factors x 3 '
         'symbol sources x 4 type classes x 9 cell kinds (incl. rotated). A case is non-trivial when the file was '
-        'written, parsed and compared; distinct = distinct fingerprint of (cell, positions, types, class).')
+        'written, parsed and compared; distinct = distinct fingerprint of (cell, positions, types, class). '
+        'Call histories (group seq): 35 classes (format x the ONE aspect in which consecutive calls differ: atom_style incl. '
+        'permutations / different / growing / shrinking hybrids and plain-vs-hybrid, with and without Velocities columns; '
+        'units; float_format; velocities on/off; system; output mode; one System object reused; dump-file column variant, '
+        'property list order / subset, one prop_info list reused; POSCAR coordstyle, scale, symbols, format, header; table '
+        'unit, order, subset, header, format) x 4 patterns AB / ABA / ABCA / ABAB in ONE process, class = index mod 35 (odd, '
+        'so every worker meets every class); every file is judged by the same parsers, a repeated letter must give the '
+        'identical text, every 23rd sequence ends with a comparison against a brand-new process.')
 ASSUMPTIONS = [
     'default working units (angstrom, amu, eV, e); the per-atom numbers held by the System are in these units',
     'unit factors from hand-entered CODATA-2022/SI values and the LAMMPS manual unit tables; 3e-9 relative slack for '
@@ -44,6 +52,10 @@ ASSUMPTIONS = [
     '(documented normalisation of dump(atom_data)); otherwise the written cell must equal the system cell',
     'POSCAR carries no origin: Cartesian coordinates may equal the absolute positions or positions minus the cell origin',
     'dump(atom_data, potential=...) is not exercised (needs a potentials record)',
+    'a written file is a function of the system and of the options of that call only: the same request repeated later in '
+    'the process (or made as the first call of a new process) must give the identical text',
+    'hybrid styles: a column that several sub-styles define appears once, where the first of them puts it (rule of the '
+    'current read_data manual page); template and smd are not used as hybrid sub-styles (edition-dependent layouts)',
 ]
 
 FORMATS = ['%.13f', '%.6f', '%.16e', '%.5e']
@@ -985,6 +997,464 @@ def run_table(ctx, am, tmpdir, n):
 
 
 # =======================================================================================
+# call histories: 2-4 writer calls in one process, consecutive calls differing in one aspect
+# =======================================================================================
+VEL_FAMILY = ('velocity', 'eradial_velocity', 'ang_momentum', 'ang_velocity')
+SEQ_DUMP_VARIANTS = ['x', 'xs', 'xu', 'xsu', 'default', 'allpos']
+SEQ_TABLE_UNITS = {   # property -> three (quantity, unit string, SI value) choices
+    'pos': [('length', 'nm', 1e-9), (None, 'scaled', None), ('length', 'm', 1.0)],
+    'velocity': [('velocity', 'm/s', 1.0), ('velocity', 'angstrom/ps', 100.0), ('velocity', 'nm/ps', 1000.0)],
+    'mass': [('mass', 'kg', 1.0), ('mass', 'g/mol', U.GRAM_PER_MOL), ('mass', 'g', 1e-3)],
+    'charge': [('charge', 'C', 1.0), ('charge', 'e', U.E_CHARGE), ('charge', 'C', 1.0)],
+}
+
+
+def seq_desc(rng, i, k, lammps=True, pbc=None, natoms=None):
+    """k-th system of sequence case i (classes rotate with i and k; r = round, so that the rotation is not
+    locked to the class i mod NC)."""
+    j = i + 3 * k
+    r = i // Q.NC
+    kinds = S.LAMMPS_KINDS if lammps else S.ALL_KINDS
+    natoms = natoms or int(rng.integers(4, 11))
+    return S.gen_system(rng, kinds[(j // 2 + j) % len(kinds)], cells.ORIGINS[(j // 5 + j + r) % 3], 1.0,
+                        pbc if pbc is not None else cells.PBCS[(7 - (j * 3 + j // 8)) % 8], natoms,
+                        S.POS_CLASSES[(j // 3 + j) % 4], S.TYPE_CLASSES[(j // 7 + j + r) % 4])
+
+
+def units_defined(styles, vel):
+    """Unit styles in which every column of every given atom style has a unit in the LAMMPS manual."""
+    out = []
+    for u in UNITS:
+        ok = True
+        for st in styles:
+            cols = F.atom_style_layouts(st)[-1] + (F.velocity_layout(st) if vel else [])
+            ok = ok and all(U.defined(u, F.COLUMN_QUANTITY[c_]) for c_ in cols if c_ in F.COLUMN_QUANTITY)
+        if ok:
+            out.append(u)
+    return out
+
+
+def seq_format(rec, ifmt, descs, unit_styles):
+    fL = min(U.factor(u, 'length') for u in unit_styles)
+    edge = min(d['vects'][k, k] for d in descs for k in range(3))
+    fmt, swapped = pick_format(ifmt, edge * fL)
+    if swapped:
+        rec.count('format-swapped')
+    return fmt
+
+
+class SeqSystems:
+    """System descriptions of one sequence, built into atomman Systems on demand; with ``share`` one object
+    per description is handed to every call that uses it."""
+
+    def __init__(self, am, share):
+        self.am, self.share = am, share
+        self.spec, self.obj = {}, {}
+
+    def add(self, key, desc, props, symbols='system'):
+        self.spec[key] = (desc, props, symbols)
+
+    def get(self, key):
+        if self.share:
+            if key not in self.obj:
+                self.obj[key] = build_system(self.am, *self.spec[key])
+            return self.obj[key]
+        return build_system(self.am, *self.spec[key])
+
+
+def same_system(system, truth):
+    if not (np.array_equal(system.atoms.pos, truth['X']) and np.array_equal(system.box.vects, truth['V'])
+            and np.array_equal(system.box.origin, truth['o']) and np.array_equal(system.atoms.atype, truth['atype'])
+            and [bool(b) for b in system.pbc] == truth['pbc'] and tuple(system.symbols) == truth['symbols']):
+        return False
+    names = [k for k in system.atoms_prop() if k not in ('atype', 'pos')]
+    if sorted(names) != sorted(truth['props']):
+        return False
+    return all(np.array_equal(system.atoms.view[k], truth['props'][k]) for k in names)
+
+
+# ---- element builders: plan -> ({letter: element}, systems) ------------------------------------------
+def seq_build_data(ctx, am, i, pl):
+    rng, rec = ctx.rng, ctx.rec
+    aspect, r = pl['aspect'], pl['round']
+    sys_ = SeqSystems(am, pl['share'] or aspect == 'object-reuse')
+    vel = pl['vel']
+    if aspect.endswith('-vel') or aspect == 'velocities':
+        vel = True
+    style_aspect = aspect.startswith(('hybrid', 'plain'))
+    if style_aspect:
+        styles = list(Q.style_triple(aspect, r))
+    elif aspect == 'velocities':
+        styles = [Q.VEL_STYLES[r % len(Q.VEL_STYLES)]] * 3
+    else:
+        styles = [Q.BASE_STYLES[(r + i // 5) % len(Q.BASE_STYLES)]] * 3
+    ok_units = units_defined(styles, vel)
+    ndesc = 3 if aspect == 'system' else 1
+    descs = [seq_desc(rng, i, k) for k in range(ndesc)]
+    if aspect == 'units':
+        unit_styles = [ok_units[(r + 3 * k) % len(ok_units)] for k in range(3)]
+        if len(set(unit_styles)) < 3:
+            unit_styles = ok_units[:3]
+    else:
+        unit_styles = [ok_units[(i // 7) % len(ok_units)]] * 3
+    if aspect == 'float_format':
+        fmts = [seq_format(rec, (r + k) % 4, descs, unit_styles) for k in range(3)]
+        if len(set(fmts)) < 3:
+            fmts = ['%.16e', '%.5e', '%.9e']
+    else:
+        fmts = [seq_format(rec, i + 2 * r + r // 4, descs, unit_styles)] * 3
+    outmodes = [OUTMODES[(i + i // 9 + r) % 3]] * 3
+    if aspect == 'outmode':
+        outmodes = [OUTMODES[(r + k) % 3] for k in range(3)]
+    elems, pools = {}, {}
+    for k, letter in enumerate('ABC'):
+        kd = k if ndesc == 3 else 0
+        d = descs[kd]
+        with_vel = vel and not (aspect == 'velocities' and k == 1)
+        key = ('sys', kd, 'vel' if with_vel else 'novel')
+        if key not in sys_.spec:
+            if kd not in pools:                                 # union of what all three styles need (velocities included)
+                pools[kd] = {}
+                for st in dict.fromkeys(styles):
+                    for name, val in style_props(rng, st, len(d['atype']), True).items():
+                        pools[kd].setdefault(name, val)
+            sys_.add(key, d, {n_: v for n_, v in pools[kd].items() if with_vel or n_ not in VEL_FAMILY})
+        elems[letter] = dict(sys=key, style=styles[k], units=unit_styles[k], fmt=fmts[k], outmode=outmodes[k],
+                             safecopy=True if pl['share'] else bool((i + k) % 2), via_module=bool((i + k) % 3 == 0))
+    if aspect == 'object-reuse':
+        elems['A']['safecopy'] = True
+        elems['B'] = dict(elems['A'], safecopy=False)
+        elems['D'] = dict(elems['B'])
+    if aspect == 'velocities':
+        elems['C'] = elems['A']
+    return elems, sys_
+
+
+def seq_dump_props(rng, i, natoms, unit_styles, carried):
+    props = {}
+    if carried:
+        props['atom_id'] = rng.permutation(natoms) * int(rng.integers(1, 4)) + int(rng.integers(1, 50))
+    names = list(DUMP_STD_PROPS)
+    for pname in dict.fromkeys(names[(i + j * 5) % len(names)] for j in range(4)):
+        if pname == 'torque' and not all(U.defined(u, 'torque') for u in unit_styles):
+            continue
+        props[pname] = S.gen_values(rng, natoms, DUMP_STD_PROPS[pname], 'int' if pname == 'm_id' else 'float', positive=pname in POSITIVE)
+    return props
+
+
+def seq_build_dumpfile(ctx, am, i, pl):
+    rng, rec = ctx.rng, ctx.rec
+    aspect, r = pl['aspect'], pl['round']
+    sys_ = SeqSystems(am, pl['share'])
+    unit_styles = [UNITS[(i // 7) % 8]] * 3
+    if aspect == 'units':
+        unit_styles = [UNITS[(r + 3 * k) % 8] for k in range(3)]
+    ndesc = 3 if aspect == 'system' else 1
+    descs = [seq_desc(rng, i, k) for k in range(ndesc)]
+    for k, d in enumerate(descs):
+        props = seq_dump_props(rng, i, len(d['atype']), unit_styles, carried=bool((i // 2 + k) % 2))
+        if k == 0 or aspect == 'system':
+            props['grain'] = S.gen_values(rng, len(d['atype']), (), 'int')
+            props['stress'] = S.gen_values(rng, len(d['atype']), (3, 3))
+        sys_.add(('sys', k), d, props)
+    fmts = [seq_format(rec, i + 2 * r + r // 4, descs, unit_styles)] * 3
+    if aspect in ('float_format', 'prop_info-reuse'):
+        fmts = [seq_format(rec, (r + k) % 4, descs, unit_styles) for k in range(3)]
+        if len(set(fmts)) < 3:
+            fmts = ['%.16e', '%.5e', '%.9e']
+    std = [k for k in sys_.spec[('sys', 0)][1] if k not in ('atom_id', 'grain', 'stress')]
+    full = ['atom_id', 'atype', 'pos'] + std + ['grain']
+    variants = [SEQ_DUMP_VARIANTS[(i // 5) % 6]] * 3
+    lists = [None] * 3
+    if aspect == 'variant':
+        variants = [SEQ_DUMP_VARIANTS[(r + 2 * k + k // 2) % 6] for k in range(3)]
+    elif aspect == 'prop-perm':
+        variants = ['list'] * 3
+        lists = [full, full[::-1], full[2:] + full[:2]]
+    elif aspect == 'prop-subset':
+        variants = ['list'] * 3
+        lists = [full, ['atom_id', 'atype', 'spos'] + std[:1], ['atype', 'atom_id', 'upos', 'grain'] + std[1:]]
+    elif aspect == 'prop_info-reuse':
+        variants = ['prop_info'] * 3
+        pinfo = [dict(prop_name='atom_id', table_name='id'), dict(prop_name='atype', table_name='type'),
+                 dict(prop_name='spos', table_name=['xs', 'ys', 'zs'], unit='scaled'), dict(prop_name='grain'),
+                 dict(prop_name='stress', shape=(3, 3))]
+        lists = [pinfo] * 3                                     # the same list object for every call
+    elems = {}
+    for k, letter in enumerate('ABC'):
+        elems[letter] = dict(sys=('sys', k if ndesc == 3 else 0), units=unit_styles[k], fmt=fmts[k], variant=variants[k],
+                             names=lists[k], outmode=OUTMODES[(i + i // 9 + r) % 3], return_prop_info=bool((i + k) % 5 == 2))
+    return elems, sys_
+
+
+def seq_build_poscar(ctx, am, i, pl):
+    rng = ctx.rng
+    aspect, r = pl['aspect'], pl['round']
+    sys_ = SeqSystems(am, pl['share'])
+    ndesc = 3 if aspect == 'system' else 1
+    symmode = 'system' if aspect == 'symbols' else PSYMBOLS[(i // 2 + r) % 3]
+    for k in range(ndesc):
+        d = seq_desc(rng, i, k, lammps=False, pbc=(True, True, True))
+        sys_.add(('sys', k), d, {}, 'system' if symmode == 'system' else 'none')
+    elems = {}
+    for k, letter in enumerate('ABC'):
+        key = ('sys', k if ndesc == 3 else 0)
+        d = sys_.spec[key][0]
+        v = lambda name, table, base: table[(base + (k if aspect == name else 0)) % len(table)]   # noqa: E731
+        kw = dict(coordstyle=v('coordstyle', COORDSTYLES, r + i // 4), box_scale=v('box_scale', PSCALES, r + i // 5),
+                  float_format=v('float_format', PFORMATS, r + i // 6), header=v('header', ['', 'generated', 'a b c 1 2 3'], r))
+        exp_symbols = list(d['symbols']) if symmode == 'system' else None
+        if symmode == 'argument' or (aspect == 'symbols' and k > 0):
+            exp_symbols = [S.SYMBOL_POOL[(j * 3 + i + 2 * k) % len(S.SYMBOL_POOL)] for j in range(d['ntypes'])]
+            kw['symbols'] = list(exp_symbols) if (i + k) % 2 else tuple(exp_symbols)
+        elems[letter] = dict(sys=key, kw=kw, exp_symbols=exp_symbols, outmode=OUTMODES[(i + i // 7) % 3])
+    if aspect == 'header':
+        elems['C'] = elems['A']
+    return elems, sys_
+
+
+def seq_build_table(ctx, am, i, pl):
+    rng = ctx.rng
+    aspect, r = pl['aspect'], pl['round']
+    sys_ = SeqSystems(am, pl['share'])
+    ndesc = 3 if aspect == 'system' else 1
+    for k in range(ndesc):
+        d = seq_desc(rng, i, k, pbc=(True, True, True))
+        n = len(d['atype'])
+        sys_.add(('sys', k), d, dict(velocity=S.gen_values(rng, n, (3,)), charge=S.gen_values(rng, n, ()),
+                                     mass=S.gen_values(rng, n, (), positive=True), tag=S.gen_values(rng, n, (), 'int')))
+    pname = ['pos', 'velocity', 'mass', 'charge'][(r + i // 3) % 4]
+    other = ['velocity', 'mass', 'charge', 'pos'][(r + i // 3) % 4]          # written without a unit
+    base = ['atype', pname, 'tag', other]
+    elems = {}
+    for k, letter in enumerate('ABC'):
+        v = lambda name, table, b: table[(b + (k if aspect == name else 0)) % len(table)]   # noqa: E731
+        q, ustr, usi = v('unit', SEQ_TABLE_UNITS[pname], r)
+        names = base
+        if aspect == 'prop-perm':
+            names = [base, base[::-1], base[1:] + base[:1]][k]
+        elif aspect == 'prop-subset':
+            names = [base, base[:2], [pname, 'tag']][k]
+        fmt = v('float_format', ['%.13f', '%.8e', '%.6f'], 2 * r + i)
+        if aspect == 'prop_info-reuse':
+            fmt = ['%.13f', '%.8e', '%.6f'][(r + i + k) % 3]
+        elems[letter] = dict(sys=('sys', k if ndesc == 3 else 0), names=names, pname=pname, q=q, ustr=ustr, usi=usi,
+                             header=v('header', [False, True], r + i // 2), fmt=fmt,
+                             form='prop_info' if aspect == 'prop_info-reuse' or (i // 4) % 2 else 'lists')
+    if aspect == 'prop_info-reuse':                             # the same list object for every call
+        e = elems['A']
+        pinfo = [dict(prop_name=nm, **({'unit': e['ustr']} if nm == e['pname'] else {})) for nm in e['names']]
+        for d_ in pinfo:
+            if d_['prop_name'] in ('pos', 'velocity'):
+                d_['shape'] = (3,)
+        for e in elems.values():
+            e['pinfo'] = pinfo
+    if aspect == 'header':
+        elems['C'] = elems['A']
+    return elems, sys_
+
+
+# ---- one call of a sequence: write, judge with the independent parser, return what was written --------
+def seq_call_data(ctx, am, tmpdir, tag, el, system, truth):
+    rec = ctx.rec
+    kw = dict(atom_style=el['style'], units=el['units'], float_format=el['fmt'])
+    if el['safecopy']:
+        kw['safecopy'] = True
+    out = None
+    with ctx.guard('dump(atom_data) writes a file for every supported atom style and unit style', 'data:write'):
+        out, path = write(tmpdir, tag, el['outmode'], lambda f: am.dump('atom_data', system, f=f, **kw) if el['via_module']
+                          else system.dump('atom_data', f=f, **kw))
+    if out is None:
+        return None
+    text, info = out
+    ok = check_data_file(rec, None, truth, text, info, path, el['units'], el['style'], el['fmt'], None)
+    return dict(text=text, extra=info, complete=ok, style='atom_data', kwargs=kw)
+
+
+def seq_call_dumpfile(ctx, am, tmpdir, tag, el, system, truth):
+    rec = ctx.rec
+    kw = dict(lammps_units=el['units'], float_format=el['fmt'])
+    variant = el['variant']
+    if variant == 'prop_info':
+        kw['prop_info'] = el['names']
+    elif variant == 'list':
+        kw['prop_name'] = list(el['names'])
+    elif variant == 'allpos':
+        kw['prop_name'] = ['atom_id', 'atype', 'pos', 'spos', 'upos', 'supos']
+    elif variant != 'default':
+        kw['prop_name'] = ['atom_id', 'atype', {'x': 'pos', 'xs': 'spos', 'xu': 'upos', 'xsu': 'supos'}[variant]]
+    if el['return_prop_info']:
+        kw['return_prop_info'] = True
+    out = None
+    with ctx.guard('dump(atom_dump) writes a file for every unit style', 'dumpfile:write:lj' if el['units'] == 'lj' else 'dumpfile:write'):
+        out, path = write(tmpdir, tag, el['outmode'], lambda f: system.dump('atom_dump', f=f, **kw))
+    if out is None:
+        return None
+    if el['outmode'] == 'string':
+        text = out[0] if el['return_prop_info'] else out
+    else:
+        text = out[0]
+    ok = check_dump_file(rec, truth, text, el['units'], el['fmt'], variant)
+    return dict(text=text, extra=None, complete=ok, style='atom_dump', kwargs=kw)
+
+
+def seq_call_poscar(ctx, am, tmpdir, tag, el, system, truth):
+    out = None
+    with ctx.guard('dump(poscar) writes a file', 'poscar:write'):
+        out, path = write(tmpdir, tag, el['outmode'], lambda f: system.dump('poscar', f=f, **el['kw']))
+    if out is None:
+        return None
+    text = out if el['outmode'] == 'string' else out[0]
+    ok = check_poscar(ctx.rec, truth, text, el['kw'], el['exp_symbols'])
+    return dict(text=text, extra=None, complete=ok, style='poscar', kwargs=dict(el['kw']))
+
+
+def seq_call_table(ctx, am, tmpdir, tag, el, system, truth):
+    if el['form'] == 'prop_info':
+        pinfo = el.get('pinfo')
+        if pinfo is None:
+            pinfo = [dict(prop_name=nm, **({'unit': el['ustr']} if nm == el['pname'] else {})) for nm in el['names']]
+            for d_ in pinfo:
+                if d_['prop_name'] in ('pos', 'velocity'):
+                    d_['shape'] = (3,)
+        kw = dict(prop_info=pinfo, header=el['header'], float_format=el['fmt'])
+    else:
+        kw = dict(prop_name=list(el['names']), unit=[el['ustr'] if nm == el['pname'] else None for nm in el['names']],
+                  header=el['header'], float_format=el['fmt'])
+    out = None
+    with ctx.guard('dump(table) writes a table', 'table:write'):
+        out = system.dump('table', **kw)
+    if out is None:
+        return None
+    ok = check_table(ctx.rec, truth, out, el['names'], el['pname'], el['q'], el['ustr'], el['usi'], el['header'])
+    return dict(text=out, extra=None, complete=ok, style='table', kwargs=kw)
+
+
+SEQ_BUILD = dict(data=seq_build_data, dumpfile=seq_build_dumpfile, poscar=seq_build_poscar, table=seq_build_table)
+SEQ_CALL = dict(data=seq_call_data, dumpfile=seq_call_dumpfile, poscar=seq_call_poscar, table=seq_call_table)
+FRESH_CODE = 'from vf.props.c07 import fresh_child; fresh_child()'
+
+
+def fresh_child():
+    """Entry point of the reference process: ONE writer call as the first thing a new interpreter does."""
+    import pickle
+    import sys
+    with open(sys.argv[1], 'rb') as fh:
+        spec = pickle.load(fh)
+    import atomman as am
+    system = build_system(am, spec['desc'], spec['props'], spec['symbols'])
+    try:
+        out = ('ok', system.dump(spec['style'], **spec['kwargs']))
+    except Exception as e:                                    # reported to the parent, which decides
+        out = ('exception', f'{type(e).__name__}: {e}')
+    with open(sys.argv[2], 'wb') as fh:
+        pickle.dump(dict(file=am.__file__, out=out), fh)
+
+
+def fresh_text(am, tmpdir, tag, spec):
+    """Text the same request yields in a brand-new process (None when the helper process could not be run)."""
+    import pickle
+    import subprocess
+    import sys
+    fin, fout = os.path.join(tmpdir, tag + '.req'), os.path.join(tmpdir, tag + '.ans')
+    with open(fin, 'wb') as fh:
+        pickle.dump(spec, fh)
+    env = dict(os.environ, PYTHONPATH=os.pathsep.join(p for p in sys.path if p))
+    # the workers run with PYTHONDONTWRITEBYTECODE; let the helper processes share compiled modules (speed only)
+    env.pop('PYTHONDONTWRITEBYTECODE', None)
+    env['PYTHONPYCACHEPREFIX'] = os.path.join(os.environ.get('VF_SHADOW') or tmpdir, '.vf-c07-pyc')
+    try:
+        r = subprocess.run([sys.executable, '-W', 'ignore', '-c', FRESH_CODE, fin, fout], env=env, capture_output=True, timeout=300)
+        with open(fout, 'rb') as fh:
+            ans = pickle.load(fh)
+    except Exception:
+        return None
+    if r.returncode != 0 or os.path.realpath(ans['file']) != os.path.realpath(am.__file__):
+        return None
+    kind, out = ans['out']
+    if kind != 'ok':
+        return ('exception', out)
+    return ('ok', out[0] if isinstance(out, tuple) else out)
+
+
+def run_seq(ctx, am, tmpdir, n):
+    rec = ctx.rec
+    for i in ctx.cases('seq', n):
+        pl = Q.plan(i)
+        fmt, aspect, pattern = pl['format'], pl['aspect'], pl['pattern']
+        rec.count(f'seq:class:{fmt}:{aspect}')
+        rec.count('seq:pattern:' + pattern)
+        elems, systems = SEQ_BUILD[fmt](ctx, am, i, pl)
+        if systems.share:
+            rec.count('seq:shared-object')
+        sig = ('seq', fmt, aspect, pattern, 'shared' if systems.share else 'rebuilt')
+        first, last, complete, fps = {}, None, True, []
+        prev = None
+        for pos_, letter in enumerate(pattern):
+            el = elems[letter]
+            system = systems.get(el['sys'])
+            truth = truth_of(system)                           # the state of the object at the moment of the call
+            if prev is not None and fmt == 'data':
+                a, b = prev.get('style', ''), el.get('style', '')
+                if a != b and a.startswith('hybrid') and b.startswith('hybrid') and prev['units'] == el['units']:
+                    rec.count('seq:data:consecutive-different-hybrids-same-units')
+                    if sorted(a.split()) == sorted(b.split()):
+                        rec.count('seq:data:consecutive-hybrid-permutations')
+            prev = el
+            res = SEQ_CALL[fmt](ctx, am, tmpdir, f'seq{i}{letter}', el, system, truth)
+            rec.count('seq:calls')
+            if res is None:
+                complete = False
+                continue
+            rec.count('monitor:seq:files-judged')
+            complete = complete and res['complete']
+            inplace = fmt == 'data' and not el['safecopy']
+            if systems.share and not inplace:
+                rec.check(same_system(system, truth), 'a writer call leaves the System it was given unchanged '
+                          '(data files: with safecopy=True)', f'seq:{fmt}:argument-modified', aspect=aspect, call=pos_)
+                rec.count('monitor:seq:argument-unchanged')
+            last = (el, res, truth)
+            fps.append(fingerprint(res['text']))
+            if letter in first:
+                ref = first[letter]
+                same = res['text'] == ref['text'] and res['extra'] == ref['extra']
+                rec.check(same, 'the same request made again after other requests yields the identical file '
+                          '(a file depends on the system and the options only, not on what was written before)',
+                          f'seq:{fmt}:repeat-differs', aspect=aspect, pattern=pattern, call=pos_,
+                          first=ref['text'][:600], again=res['text'][:600])
+                rec.count('monitor:seq:repeat-compared')
+                rec.count(f'monitor:seq:repeat-compared:{fmt}')
+            else:
+                first[letter] = res
+        if aspect == 'object-reuse' and 'A' in first and 'B' in first:
+            strip = lambda info: [ln for ln in (info or '').split('\n') if not ln.startswith('read_data')]   # noqa: E731
+            rec.check(first['A']['text'] == first['B']['text'] and strip(first['A']['extra']) == strip(first['B']['extra']),
+                      'safecopy=True writes the same file as writing in place (the read_data line names each file)',
+                      'seq:data:safecopy-differs', a=first['A']['text'][:400], b=first['B']['text'][:400])
+            rec.count('monitor:seq:object-reuse')
+        if pl['fresh'] and last is not None:
+            el, res, truth = last
+            desc, props, symbols = systems.spec[el['sys']]
+            if aspect == 'object-reuse':                        # the last call saw the wrapped object: describe that state
+                desc = dict(desc, vects=truth['V'], origin=truth['o'], pos=truth['X'])
+            kwargs = {k: v for k, v in res['kwargs'].items()}
+            ans = fresh_text(am, tmpdir, f'seq{i}', dict(desc={k: desc[k] for k in ('atype', 'pos', 'vects', 'origin', 'pbc', 'symbols')},
+                                                         props=props, symbols=symbols, style=res['style'], kwargs=kwargs))
+            if ans is None:
+                rec.count('seq:fresh:helper-unavailable')
+            else:
+                rec.check(ans == ('ok', res['text']), 'a request made after other requests yields the file the same request '
+                          'yields as the first call of a new process', f'seq:{fmt}:differs-from-fresh-process', aspect=aspect,
+                          pattern=pattern, fresh=str(ans[1])[:600], here=res['text'][:600])
+                rec.count('monitor:seq:fresh-compared')
+        rec.case(sig, nontrivial=complete and len(fps) == len(pattern), fp=fingerprint(fps, sig))
+        if i < 2 * Q.NC and i % 9 == 0 and last is not None:
+            rec.sample(dict(kind='sequence', format=fmt, aspect=aspect, pattern=pattern,
+                            calls=[{k: v for k, v in elems[c_].items() if k not in ('sys', 'pinfo')} for c_ in pattern],
+                            last_file=last[1]['text'][:400]))
+
+
+# =======================================================================================
 def run(ctx):
     import atomman as am
     import atomman.unitconvert as uc
@@ -1003,6 +1473,7 @@ def run(ctx):
         run_dumpfile(ctx, am, tmpdir, ctx.pick(448, 4032))
         run_poscar(ctx, am, tmpdir, ctx.pick(432, 3888))
         run_table(ctx, am, tmpdir, ctx.pick(96, 768))
+        run_seq(ctx, am, tmpdir, ctx.pick(8 * Q.NC, 72 * Q.NC))
     finally:
         shutil.rmtree(tmpdir, ignore_errors=True)
     for f in COVER:
@@ -1050,6 +1521,22 @@ def run(ctx):
     rec.floor('poscar:kind:rotated', 20)
     rec.floor('monitor:table:parsed', 50)
     rec.floor('table:prop_info-form', 20)
+    # ---- call histories -----------------------------------------------------------------------------
+    for fmt_, aspect_ in Q.SEQ_CLASSES:
+        rec.floor(f'seq:class:{fmt_}:{aspect_}', 8)
+    for pat in Q.PATTERNS:
+        rec.floor('seq:pattern:' + pat, 40)
+    rec.floor('seq:pattern:AABD', 8)
+    rec.floor('monitor:seq:files-judged', 600)
+    rec.floor('monitor:seq:repeat-compared', 200)
+    for fmt_, m_ in (('data', 80), ('dumpfile', 35), ('poscar', 30), ('table', 35)):
+        rec.floor('monitor:seq:repeat-compared:' + fmt_, m_)
+    rec.floor('seq:data:consecutive-different-hybrids-same-units', 80)
+    rec.floor('seq:data:consecutive-hybrid-permutations', 24)
+    rec.floor('seq:shared-object', 100)
+    rec.floor('monitor:seq:argument-unchanged', 200)
+    rec.floor('monitor:seq:object-reuse', 6)
+    rec.floor('monitor:seq:fresh-compared', 9)
     rec.floor('reach:dump/atom_data/dump.py', 30)
     rec.floor('reach:dump/atom_dump/dump.py', 40)
     rec.floor('reach:dump/poscar/dump.py', 20)
